@@ -36,7 +36,18 @@ SignedOK == \A k \in Signed :
   /\ (Len(VarI(k)) <= 3 <=> (k >= -1048576 /\ k <= 1048575))
   /\ (Len(VarI(k)) <= 4 <=> (k >= -134217728 /\ k <= 134217727))
 
+\* a var-int is read at any position of any buffer: whatever precedes and follows it, exactly its bytes are
+\* consumed and the value does not depend on the neighbours (a reader that loads a whole word must mask it)
+FF8 == [i \in 1..8 |-> 255]
+Contexts == {<<<<>>, <<128>>>>, <<<<>>, FF8>>, <<<<>>, <<15, 0, 0, 0, 0, 0, 0, 0>>>>, <<<<>>, <<127, 127, 127, 127, 127, 127, 127, 127>>>>,
+             <<<<255>>, FF8>>, <<<<128, 1>>, <<1, 2, 3>>>>, <<FF8, FF8 \o FF8>>}
+InContext == \A c \in Contexts :
+  LET e == VarUW(u) b == c[1] \o e \o c[2] IN
+  /\ RdVarU(b, Len(c[1]) + 1, Len(b)) = [ok |-> TRUE, u |-> u, p |-> Len(c[1]) + Len(e) + 1]
+  /\ \A k \in Signed : LET ek == VarI(k) bk == c[1] \o ek \o c[2] IN
+        RdVarI(bk, Len(c[1]) + 1, Len(bk)) = [ok |-> TRUE, x |-> k, p |-> Len(c[1]) + Len(ek) + 1]
+
 EmitOnce == (u # <<0, 0>>) \/
   PrintT(<<"REPLAY", ToJson([unsigned |-> {<<x[1], x[2], VarUW(x)>> : x \in Unsigned},
-                             signed |-> {<<k, VarI(k)>> : k \in Signed}])>>)
+                             signed |-> {<<k, VarI(k)>> : k \in Signed}, contexts |-> Contexts])>>)
 =============================================================================
